@@ -65,8 +65,22 @@ def _prepare(trace):
     """Project after prelude and, for undo/redo modes, after the victim was done
     (and undone).  Returns (ctx, victim ChangeSet | None)."""
     ctx = Ctx(trace)
-    for st in trace.get("prelude", []):
-        ctx.step(st)
+    prelude = trace.get("prelude", [])
+    early = None
+    if trace.get("preview_early") and prelude and not trace["victim"].get("refactor"):
+        # the client builds the composite and looks at its preview, then another change is
+        # made, and only then the composite is performed
+        for st in prelude[:-1]:
+            ctx.step(st)
+        try:
+            early = realize.realize(ctx.project, trace["victim"])
+            early.get_description()
+        except Exception:
+            early = None
+        ctx.step(prelude[-1])
+    else:
+        for st in prelude:
+            ctx.step(st)
     mode = trace["mode"]
     if trace["victim"].get("refactor"):
         # the composite is what a real refactoring computes (multi-file edits, module moves)
@@ -76,6 +90,8 @@ def _prepare(trace):
         if victim is None or not victim.changes:
             return ctx, None, False
         victim.description = "victim"
+    elif early is not None:
+        victim = early
     else:
         victim = realize.realize(ctx.project, trace["victim"])
     ok = True
@@ -261,6 +277,7 @@ class AtomicEngine(Engine):
             "faults": "all",
             "swarm": swarm,
             "sel": rng.randrange(8),
+            "preview_early": mode == "do" and rng.random() < 0.25,
         }
 
     def run(self, run_seed):
